@@ -280,6 +280,7 @@ def _mk_endpoint_classes():
             self.raise_on_state = None  # set of state names: on_state_change(that state) raises (failing application callback)
             self.send_on_disconnect = False  # the application tries to send an order from on_disconnect
             self.in_at_disconnect = None
+            self.drop_on_state = None  # set of state names: the application drops the connection (no Logout) from on_state_change
             self.disconnect_on_state = None  # set of state names: the application ends the session from on_state_change
             self.disconnect_on_logon = False  # the application ends the session from inside on_logon
             self.raise_on_disconnect = False  # on_disconnect raises after recording the report (failing application callback)
@@ -348,6 +349,9 @@ def _mk_endpoint_classes():
                     self.ev.append(("hook_send", "accepted"))
                 except Exception as e:  # noqa
                     self.ev.append(("hook_send", type(e).__name__))
+            if self.drop_on_state and st.name in self.drop_on_state:
+                from asyncfix.connection import ConnectionState
+                await self.disconnect(ConnectionState.DISCONNECTED_BROKEN_CONN)
             if self.disconnect_on_state and st.name in self.disconnect_on_state:
                 from asyncfix.connection import ConnectionState
                 await self.disconnect(ConnectionState.DISCONNECTED_WCONN_TODAY, logout_message="not now")
